@@ -272,4 +272,36 @@ Section Twin.
       + reflexivity.
       + apply (kwt_cookie _ _ T).
   Qed.
+  (* inotify_rm_watch on twins: the same watch goes, the same IN_IGNORED record is queued (it is not maskable) *)
+  Lemma find_wd_remask wd l :
+    find (fun w => N.eqb (kw_wd w) wd) (map remask l) = option_map remask (find (fun w => N.eqb (kw_wd w) wd) l).
+  Proof.
+    induction l as [|w l IH]; [reflexivity|]. simpl. destruct (N.eqb (kw_wd w) wd); [reflexivity | exact IH].
+  Qed.
+
+  Lemma krm_watch_kwt k k' wd : kwt k k' -> kwt (krm_watch k wd) (krm_watch k' wd).
+  Proof.
+    intros T. unfold krm_watch. rewrite (kwt_watches _ _ T), find_wd_remask.
+    destruct (find (fun w => N.eqb (kw_wd w) wd) (k_watches k)) as [w|]; cbn [option_map]; [|exact T].
+    constructor; cbn [k_watches k_next_wd k_next_cookie].
+    - apply (filter_remask (fun x => negb (N.eqb x wd))).
+    - intros x Hx. apply filter_In in Hx as [Hx _]. apply (kwt_mask _ _ T x Hx).
+    - apply (kwt_wd _ _ T).
+    - apply (kwt_cookie _ _ T).
+  Qed.
+
+  Lemma krm_watch_twin k k' wd :
+    kwt k k' -> k_queue k = k_queue k' ->
+    kwt (krm_watch k wd) (krm_watch k' wd) /\ k_queue (krm_watch k wd) = k_queue (krm_watch k' wd).
+  Proof.
+    intros T Q. unfold krm_watch. rewrite (kwt_watches _ _ T), find_wd_remask.
+    destruct (find (fun w => N.eqb (kw_wd w) wd) (k_watches k)) as [w|]; cbn [option_map]; [|split; assumption].
+    split.
+    - constructor; cbn [k_watches k_next_wd k_next_cookie].
+      + apply (filter_remask (fun x => negb (N.eqb x wd))).
+      + intros x Hx. apply filter_In in Hx as [Hx _]. apply (kwt_mask _ _ T x Hx).
+      + apply (kwt_wd _ _ T).
+      + apply (kwt_cookie _ _ T).
+    - cbn [k_queue]. now rewrite Q.
+  Qed.
 End Twin.
